@@ -1,6 +1,7 @@
 /- Driver.XmlScan — line protocol of the `xmlscan` engine (C06).
 
-   buf <A><E> <hex|.>     new session (backend_init on a copy of the bytes); A,E = variant bits   -> buf r=0 n=<n>
+   buf <hex|.>            new session (backend_init on a copy of the bytes)        -> buf r=0 n=<n> | buf r=-1 (n = 0)
+   bufn <len>             backend_init with xmlbuflen = len ≤ 0                     -> buf r=-1
    init                   look_init                      -> init r=0 ver=<ma>.<mi> tb=<off> name=<hex>   |  init r=-1
    A <f>                  next_attr                      -> A r=<r> [name=<hex> value=<hex>] ab=<off|-> <buffer>
    F <f>                  find_child                     -> F r=<r> [tag=<hex> new=<id> tb=.. ab=.. closed=..] <buffer>
@@ -19,7 +20,7 @@ namespace Driver.XmlScanEng
 open Hw Hw.XmlScan Driver
 
 structure DState where
-  v : Variant := pinned
+  v : Variant := fixed      -- the model of the current source; never changed by the protocol
   st : Option St := none
 
 def init : DState := {}
@@ -99,7 +100,7 @@ def fillVals (cap : Nat) : Nat → Toks → List Nat
 
 def distRun (nb : Nat) (children : List (Bool × List Nat)) : String :=
   let nbobjs := idxCap nb
-  if nbobjs == 0 then "dist r=-1" else
+  if !nbobjsAccepted nb then "dist r=-1" else
   let vc := valCap nb
   -- children in document order
   let rec go : List (Bool × List Nat) → Nat → Nat → List Nat → List Nat → Option (List Nat × List Nat)
@@ -177,23 +178,28 @@ def stepOp (d : DState) (op : Op) (i : Nat) : DState × String :=
 
 def step (d : DState) (line : String) : DState × String :=
   match tokens line with
-  | ["buf", ve, hx] =>
-    match ve.toList, parseHexBytes hx with
-    | [a, e], some bytes =>
-      if (a ≠ '0' ∧ a ≠ '1') ∨ (e ≠ '0' ∧ e ≠ '1') then (d, "bad-op") else
-      let v : Variant := ⟨a == '1', e == '1'⟩
-      if bytes.size == 0 then ({ v := v, st := none }, "illegal") else
-      match backendInit false bytes bytes.size with
-      | .ok (some b) => ({ v := v, st := some { buf := b, frames := #[] } }, s!"buf r=0 n={b.size}")
-      | .ok none => ({ v := v, st := none }, "buf r=-1")
-      | .error e => ({ v := v, st := none }, errStr e)
-    | _, _ => (d, "bad-op")
+  | ["buf", hx] =>
+    match parseHexBytes hx with
+    | some bytes =>
+      match backendInit true bytes bytes.size with
+      | .ok (some b) => ({ d with st := some { buf := b, frames := #[] } }, s!"buf r=0 n={b.size}")
+      | .ok none => ({ d with st := none }, "buf r=-1")
+      | .error e => ({ d with st := none }, errStr e)
+    | none => (d, "bad-op")
+  | ["bufn", l] =>
+    match l.toInt? with
+    | some len =>
+      if len > 0 then (d, "bad-op") else
+      match backendInit true #[0] len with
+      | .ok (some _) => ({ d with st := none }, "bad-op")
+      | .ok none => ({ d with st := none }, "buf r=-1")
+      | .error e => ({ d with st := none }, errStr e)
+    | none => (d, "bad-op")
   | ["init"] =>
     match d.st with
     | none => (d, "nosession")
     | some s =>
       if s.frames.size != 0 then (d, "illegal") else
-      if !d.v.fixA && f05a s.buf then (d, "illegal") else
       match lookInit d.v s.buf with
       | .error e => (d, errStr e)
       | .ok (r, some f) =>
